@@ -23,7 +23,8 @@ META = {
         'work-list and add_cell rely on; (drop) every path of add_cell '
         'that discards a cell is a duplicate, a blank, or - for a constant '
         'covered by an array formula - is matched by the caller enqueuing the '
-        'covering formula.'),
+        'covering formula.'
+        ' (cachekey) the per-run cache of sheet extents is keyed by what the cached value is computed from (the worksheet, not its title).'),
     'not_decided': (
         'Equality of values with the fully loaded model and idempotence of '
         'finish().'),
@@ -79,9 +80,10 @@ def rule_worklist(ctx):
                 function=f.qualname, line=lp.lineno)
     # done initialised from cells
     rr.instances += 1
-    init = [n for n in own_nodes(f) if isinstance(n, ast.Assign) and any(
-        isinstance(t, ast.Name) and t.id == done for t in n.targets)]
-    if init and 'self.cells' in norm_src(init[0].value):
+    from ..util import assign_pairs as _pairs
+    init = [v for t, v, _st in _pairs(f)
+            if isinstance(t, ast.Name) and t.id == done]
+    if init and 'self.cells' in norm_src(init[0]):
         rr.ok('done-set starts from the cells already loaded', EXCEL)
     else:
         rr.fail(key_of(f, 'done-set initialisation'),
